@@ -848,3 +848,206 @@ class MergePart:
             for E in c['exts']:
                 E['entries'] = [e for e in E['entries'] if e[0] != k]
             yield c
+
+
+# ------------------------------------------------------------------------------------------ image level: NiftiWrapper.split
+
+def build_data_wrapper(E, img):
+    """NiftiWrapper whose voxel data is 0..N-1 in C order (every voxel identifies its own index)."""
+    np, dcmmeta = _imports()
+    import nibabel as nb
+    n = 1
+    for x in img['shape']:
+        n *= x
+    data = np.arange(n, dtype=np.int16).reshape(tuple(img['shape']))
+    nii = nb.Nifti1Image(data, np.array(img['aff'], dtype=float))
+    nii.header.set_dim_info(slice=img['slice'])
+    nii.header.extensions.append(build_ext(E))
+    return dcmmeta.NiftiWrapper(nii)
+
+
+def _piece_obs(p, keys, default):
+    np, _ = _imports()
+    nii = p.nii_img
+    shape = [int(x) for x in nii.shape]
+    o = {'shape': shape, 'slice': nii.header.get_dim_info()[2],
+         'aff': [[float(x) for x in row] for row in nii.affine],
+         'data': [int(x) for x in np.asanyarray(nii.dataobj).ravel(order='C')],
+         'ext': ext_to_json(p.meta_ext), 'lookups': {}}
+    if o['slice'] is not None:
+        o['slice'] = int(o['slice'])
+    try:
+        p.meta_ext.check_valid()
+        o['valid'] = True
+    except Exception:       # noqa: BLE001
+        o['valid'] = False
+    for k in keys:
+        tab = []
+        for idx in itertools.product(*[range(x) for x in shape]):
+            try:
+                tab.append(_plain(p.get_meta(k, idx, copy.deepcopy(default))))
+            except Exception as e:      # noqa: BLE001
+                tab.append({'__exc__': type(e).__name__})
+        o['lookups'][k] = tab
+    return o
+
+
+LOOKUP_DEFAULT = None     # an absent key denotes None at every position (Spec.den), so the default must be None here
+
+
+def run_split(case):
+    """case: {"ext": E, "img": {"shape","slice","aff"}, "dim": int|None} -> {"pieces": [...], "parent": {...}} | {"err":..}"""
+    def go():
+        w = build_data_wrapper(case['ext'], case['img'])
+        keys = [k for k, _, _ in case['ext']['entries']]
+        before = ext_to_json(w.meta_ext)
+        parent = _piece_obs(w, keys, LOOKUP_DEFAULT)
+        pieces = [_piece_obs(p, keys, LOOKUP_DEFAULT) for p in w.split(case['dim'])]
+        return {'pieces': pieces, 'parent': {'lookups': parent['lookups']},
+                'input_untouched': ext_to_json(w.meta_ext) == before}
+    return _guard(go)
+
+
+def wimg_to_coq(shape, slc, aff, data):
+    return '(mk_wimg %s %s %s %s)' % (clist(cnat(x) for x in shape), copt(slc, cnat), caff(aff), clist(cz(x) for x in data))
+
+
+def split_case_to_coq(case, obs):
+    img = case['img']
+    n = 1
+    for x in img['shape']:
+        n *= x
+    w = wimg_to_coq(img['shape'], img['slice'], img['aff'], list(range(n)))
+    if 'pieces' in obs:
+        o = '(Ok %s)' % clist(cpair(wimg_to_coq(p['shape'], p['slice'], p['aff'], p['data']), ext_to_coq(p['ext']))
+                              for p in obs['pieces'])
+    else:
+        o = '(Err %s)' % obs.get('err', 'ECrash')
+    return '(mk_split_case %s %s %s %s)' % (w, ext_to_coq(case['ext']), copt(case['dim'], cnat), o)
+
+
+def oracle_split(case, obs):
+    """C04 at the image level, on the implementation alone."""
+    img, E, dim = case['img'], case['ext'], case['dim']
+    sh = img['shape']
+    d = dim
+    if d is None:
+        d = len(sh) - 1
+        if d == 2:
+            if img['slice'] is None:
+                return None if obs.get('err') == 'EValue' else 'split() without a known slice dim did not raise ValueError'
+            d = img['slice']
+    if d >= len(sh):
+        return None if 'err' in obs else 'split along a missing dimension accepted'
+    if 'err' in obs:
+        return 'split(%r) raised %s: %s' % (dim, obs.get('exc'), obs.get('msg'))
+    ps = obs['pieces']
+    if len(ps) != sh[d]:
+        return '%d pieces for an axis of length %d' % (len(ps), sh[d])
+    exp_shape = subset_shape(sh, d)
+    strides = [1] * len(sh)
+    for i in range(len(sh) - 2, -1, -1):
+        strides[i] = strides[i + 1] * sh[i + 1]
+    keys = [k for k, _, _ in E['entries']]
+    for i, p in enumerate(ps):
+        if p['shape'] != exp_shape:
+            return 'piece %d has image shape %r, expected %r' % (i, p['shape'], exp_shape)
+        if p['ext']['shape'] != p['shape']:
+            return 'piece %d: extension shape %r differs from image shape %r' % (i, p['ext']['shape'], p['shape'])
+        if p['ext']['sdim'] != E['sdim'] or p['slice'] != img['slice']:
+            return 'piece %d: slice dimension changed' % i
+        if not p.get('valid', True):
+            return 'piece %d: extension fails check_valid' % i
+        # geometry: linear part unchanged, voxel 0 of the piece is where voxel i of the parent was
+        for r in range(4):
+            for c in range(3):
+                if p['aff'][r][c] != img['aff'][r][c]:
+                    return 'piece %d: linear part of the affine changed' % i
+            exp_t = img['aff'][r][3] + (i * img['aff'][r][d] if (d < 3 and r < 3) else 0.0)
+            if p['aff'][r][3] != exp_t:
+                return 'piece %d: translation[%d] = %r, expected %r' % (i, r, p['aff'][r][3], exp_t)
+        # data: the i-th hyperplane (parent voxel values are their own flat indices), lookups: parent's with axis fixed
+        pos = 0
+        full = [range(x) for x in sh]
+        full[d] = [i]
+        for pidx in itertools.product(*full):
+            flat = sum(a * b for a, b in zip(pidx, strides))
+            if pos >= len(p['data']) or p['data'][pos] != flat:
+                return 'piece %d: voxel %d is not parent voxel %r' % (i, pos, pidx)
+            for k in (keys if img['slice'] == E['sdim'] else []):      # lookups are compared on matching images only
+                if p['lookups'][k][pos] != obs['parent']['lookups'][k][flat]:
+                    return 'piece %d key %r: lookup at piece voxel %d = %r, parent at %r = %r' % (
+                        i, k, pos, p['lookups'][k][pos], pidx, obs['parent']['lookups'][k][flat])
+            pos += 1
+        if pos != len(p['data']):
+            return 'piece %d has %d voxels, expected %d' % (i, len(p['data']), pos)
+    if obs.get('input_untouched') is False:
+        return 'split modified the extension of its input'
+    return None
+
+
+class SplitPart:
+    """NiftiWrapper.split correspondence + C04 oracle (image level)."""
+    NAME = 'split'
+    CORR_REQUIRE = 'From DV Require Import Common.Jv Ext.Types Ext.Model Ext.Corr Ext.Split Ext.CorrSplit.'
+    CORR_CASE_TYPE = 'split_case'
+    CORR_CHECK = 'check_split'
+    CORR_SHOW = 'run_split'
+    SHARD = 40
+    IMPL_TIMEOUT = 30
+    RULE = ('extended images whose voxel values are their own C-order indices, mostly oblique (non-symmetric) dyadic affines, '
+            '3-5 D incl. (X,Y,Z,1,V), any slice axis or none, extension as in the subset part (scalar-, list- and nested-valued '
+            'keys in every class), split along every dimension and with dim=None; observed per piece: image shape, slice '
+            'dim_info, affine (exact), all voxels, the extension, and get_meta of every key at every voxel, compared with the '
+            'parent; non-trivial = some key in a varying class')
+
+    @staticmethod
+    def gen_cases(rng, tier):
+        n = 150 if tier == 'quick' else 1200
+        cases = []
+        for _ in range(n):
+            E = gen_ext(rng, tier, widen=rng.choice([0.0, 0.4]), nkeys=rng.randint(1, 4),
+                        aff=gen_affine(rng, rng.choice(['dense', 'dense', 'perm', 'diag'])))
+            if len(E['shape']) == 4 and rng.random() < 0.5:
+                # 4-D split along time with scalar- and list-valued ('time','samples') keys
+                d = dims(E)
+                ents = entry_map(E)
+                for name, kind in (('TimeScalar', 'int'), ('TimeList', 'list')):
+                    enc = encode(rng, E['shape'], E['sdim'], gen_fn(rng, d, 'time', alphabet=gen_alphabet(rng, kind, 4)), 0.0)
+                    if enc is not None:
+                        ents[name] = enc
+                E = mk_E(E['shape'], E['sdim'], E['aff'], ents)
+            img = {'shape': list(E['shape']), 'slice': E['sdim'], 'aff': copy.deepcopy(E['aff'])}
+            r = rng.random()
+            if r < 0.08 and E['sdim'] is not None:
+                img['slice'] = None              # header lost its slice dim_info
+            dim = rng.choice(list(range(len(E['shape']))) + [None, None])
+            kind = 'split/dim%s/%dD' % (dim, len(E['shape']))
+            if r > 0.95:
+                dim, kind = len(E['shape']), 'split/err-dim'
+            cases.append({'kind': kind, 'ext': E, 'img': img, 'dim': dim})
+        return cases
+
+    run_impl = staticmethod(run_split)
+    coq_case = staticmethod(split_case_to_coq)
+
+    @staticmethod
+    def oracle(case, obs):
+        if 'crash' in obs:
+            return 'harness: %s' % obs.get('msg')
+        return oracle_split(case, obs)
+
+    @staticmethod
+    def signature(case, obs, msg):
+        return 'split/%s/dim%s/%s' % (shape_family(case['img']['shape']), case['dim'], sig_of_exc(obs))
+
+    @staticmethod
+    def nontrivial(case, obs):
+        return 'err' in obs or any(c != 'GConst' for _, c, _ in case['ext']['entries'])
+
+    @staticmethod
+    def shrink(case):
+        for F in shrink_E(case['ext']):
+            c = dict(case)
+            c['ext'] = F
+            yield c
